@@ -49,6 +49,9 @@ type c16Req struct {
 	cancelled bool
 	finished bool
 	doOrder  int
+	gid      uint64
+	deferredCancel bool // cancelled while parked before its select: the model processes the cancel when the call returns
+	cancelSeen     bool
 }
 
 func c16Run(e *Env) {
@@ -120,9 +123,26 @@ func c16Run(e *Env) {
 			queue[p] = queue[p][1:]
 		}
 	}
-	racy := false
 
 	check := func(when string) {
+		for _, r := range reqs {
+			if r == nil || !r.deferredCancel || r.cancelSeen {
+				continue
+			}
+			e.mu.Lock()
+			ret, err, ranDo := r.returned, r.err, r.ranDo
+			e.mu.Unlock()
+			if ret && err != nil && !ranDo {
+				r.cancelSeen = true
+				switch {
+				case contains(queue[r.path], r.id):
+					queue[r.path] = remove(queue[r.path], r.id)
+				case contains(admitted[r.path], r.id):
+					admitted[r.path] = remove(admitted[r.path], r.id)
+					admitNext(r.path)
+				}
+			}
+		}
 		e.mu.Lock()
 		var inDo []int
 		perPath := map[string]int{}
@@ -151,9 +171,6 @@ func c16Run(e *Env) {
 			if ret && err != nil && ranDo {
 				e.Violate("C16.R3", "cancel-error-after-do", "r%d returned %v although do() ran", r.id, err)
 			}
-		}
-		if racy {
-			return
 		}
 		for _, id := range inDo {
 			if !contains(admitted[reqs[id].path], id) {
@@ -188,6 +205,9 @@ func c16Run(e *Env) {
 				}
 				e.Logf("arrive r%d %s observe=%v -> model admitted=%v queue=%v", id, p, r.observe, admitted[p], queue[p])
 				go func() {
+					e.mu.Lock()
+					r.gid = goid()
+					e.mu.Unlock()
 					var err error
 					if r.observe {
 						_, err = lpr.DoObserve(msg, func(*pool.Message) {})
@@ -230,15 +250,21 @@ func c16Run(e *Env) {
 				evs = append(evs, Event{Label: "cancel", W: 2, Do: func() {
 					r.cancelled = true
 					e.Fault("ctx.cancel")
+					e.mu.Lock()
+					gid := r.gid
+					e.mu.Unlock()
 					for _, pg := range e.Parked() {
-						if pg.Site == "limit.acquire.beforeSelect" {
-							// somebody is parked directly before the select: a cancel now can make two cases ready
-							racy = true
-							e.MarkRacy()
+						if pg.Site == "limit.acquire.beforeSelect" && pg.Gid == gid {
+							// the caller has not reached its select yet: it is still a live waiter for the
+							// implementation; the model processes the cancel when the call is seen to return
+							r.deferredCancel = true
+							e.Probe("cancel.whileParkedBeforeSelect")
 						}
 					}
 					where := "in do (no effect)"
 					switch {
+					case r.deferredCancel:
+						where = "parked before its select: deferred"
 					case contains(queue[r.path], r.id):
 						where = "queued"
 						e.Probe("cancel.queuedWaiter")
@@ -261,6 +287,13 @@ func c16Run(e *Env) {
 			evs = append(evs, Event{Label: "resume", W: 3, Do: func() {
 				e.Logf("resume %s#%d", pg.Site, pg.Hit)
 				e.Fault("park.resume")
+				for _, r := range reqs {
+					if r != nil && r.gid == pg.Gid && r.deferredCancel && contains(admitted[r.path], r.id) {
+						// granted and cancelled: two ready select cases, the runtime tosses a coin; both outcomes are legal
+						e.MarkRacy()
+						e.Probe("select.twoReadyCases")
+					}
+				}
 				e.Resume(pg)
 			}})
 		}
